@@ -13,4 +13,42 @@ namespace Romea.Hidden.C13
 
 theorem hidden_state_as_recorded : Romea.Generated.C13.hiddenState = [] := by rfl
 
+/-- The names (not only the types) of what every translated function reads, carries through its loops and returns are those
+    the bridge theorems were written against: a function that now reads or writes ANOTHER member of the same type keeps its Lean
+    type, and a positional application in a bridge would keep checking. -/
+theorem signatures_as_recorded : Romea.Generated.C13.signatures = [
+    "vecResize (v n z)",
+    "vecSet? (v i x)",
+    "GridIndexMapping.GridIndexMapping_interval_d2.loop1 (cellResolution_ flooredMinimalPositionAlongAxes__0 numberOfCellsAlongAxes__0) carried: cellCentersPositionAlongAxes__0, n",
+    "GridIndexMapping.GridIndexMapping_interval_d2.loop2 (cellResolution_ flooredMinimalPositionAlongAxes__1 numberOfCellsAlongAxes__1) carried: cellCentersPositionAlongAxes__1, n",
+    "GridIndexMapping.GridIndexMapping_interval_d2 (cellResolution extrimities_lower__0 extrimities_lower__1 extrimities_upper__0 extrimities_upper__1) result: cellCentersPositionAlongAxes__0', cellCentersPositionAlongAxes__1', cellResolution_', flooredMinimalPositionAlongAxes__0', flooredMinimalPositionAlongAxes__1', numberOfCellsAlongAxes__0', numberOfCellsAlongAxes__1' (none = a partial operation failed: index outside a vector)",
+    "Interval.Interval (lower_0 lower_1 upper_0 upper_1) result: lower__0', lower__1', upper__0', upper__1'",
+    "GridIndexMapping.GridIndexMapping_range_d2 (cellResolution maximalRange) result: cellCentersPositionAlongAxes__0', cellCentersPositionAlongAxes__1', cellResolution_', flooredMinimalPositionAlongAxes__0', flooredMinimalPositionAlongAxes__1', numberOfCellsAlongAxes__0', numberOfCellsAlongAxes__1' (none = a partial operation failed: index outside a vector)",
+    "GridIndexMapping.computeCellIndexes_d2 (cellResolution_ flooredMinimalPositionAlongAxes__0 flooredMinimalPositionAlongAxes__1 point_0 point_1) result: ret_0, ret_1",
+    "vecGet? (v i)",
+    "GridIndexMapping.computeCellCenterPosition_d2 (cellCentersPositionAlongAxes__0 cellCentersPositionAlongAxes__1 cellIndexes_0 cellIndexes_1) result: ret_0, ret_1 (none = a partial operation failed: index outside a vector)",
+    "GridIndexMapping.GridIndexMapping_interval_d3.loop1 (cellResolution_ flooredMinimalPositionAlongAxes__0 numberOfCellsAlongAxes__0) carried: cellCentersPositionAlongAxes__0, n",
+    "GridIndexMapping.GridIndexMapping_interval_d3.loop2 (cellResolution_ flooredMinimalPositionAlongAxes__1 numberOfCellsAlongAxes__1) carried: cellCentersPositionAlongAxes__1, n",
+    "GridIndexMapping.GridIndexMapping_interval_d3.loop3 (cellResolution_ flooredMinimalPositionAlongAxes__2 numberOfCellsAlongAxes__2) carried: cellCentersPositionAlongAxes__2, n",
+    "GridIndexMapping.GridIndexMapping_interval_d3 (cellResolution extrimities_lower__0 extrimities_lower__1 extrimities_lower__2 extrimities_upper__0 extrimities_upper__1 extrimities_upper__2) result: cellCentersPositionAlongAxes__0', cellCentersPositionAlongAxes__1', cellCentersPositionAlongAxes__2', cellResolution_', flooredMinimalPositionAlongAxes__0', flooredMinimalPositionAlongAxes__1', flooredMinimalPositionAlongAxes__2', numberOfCellsAlongAxes__0', numberOfCellsAlongAxes__1', numberOfCellsAlongAxes__2' (none = a partial operation failed: index outside a vector)",
+    "Interval.Interval_2 (lower_0 lower_1 lower_2 upper_0 upper_1 upper_2) result: lower__0', lower__1', lower__2', upper__0', upper__1', upper__2'",
+    "GridIndexMapping.GridIndexMapping_range_d3 (cellResolution maximalRange) result: cellCentersPositionAlongAxes__0', cellCentersPositionAlongAxes__1', cellCentersPositionAlongAxes__2', cellResolution_', flooredMinimalPositionAlongAxes__0', flooredMinimalPositionAlongAxes__1', flooredMinimalPositionAlongAxes__2', numberOfCellsAlongAxes__0', numberOfCellsAlongAxes__1', numberOfCellsAlongAxes__2' (none = a partial operation failed: index outside a vector)",
+    "GridIndexMapping.computeCellIndexes_d3 (cellResolution_ flooredMinimalPositionAlongAxes__0 flooredMinimalPositionAlongAxes__1 flooredMinimalPositionAlongAxes__2 point_0 point_1 point_2) result: ret_0, ret_1, ret_2",
+    "GridIndexMapping.computeCellCenterPosition_d3 (cellCentersPositionAlongAxes__0 cellCentersPositionAlongAxes__1 cellCentersPositionAlongAxes__2 cellIndexes_0 cellIndexes_1 cellIndexes_2) result: ret_0, ret_1, ret_2 (none = a partial operation failed: index outside a vector)",
+    "GridIndexMapping.GridIndexMapping_interval_f2.loop1 (cellResolution_ flooredMinimalPositionAlongAxes__0 numberOfCellsAlongAxes__0) carried: cellCentersPositionAlongAxes__0, n",
+    "GridIndexMapping.GridIndexMapping_interval_f2.loop2 (cellResolution_ flooredMinimalPositionAlongAxes__1 numberOfCellsAlongAxes__1) carried: cellCentersPositionAlongAxes__1, n",
+    "GridIndexMapping.GridIndexMapping_interval_f2 (cellResolution extrimities_lower__0 extrimities_lower__1 extrimities_upper__0 extrimities_upper__1) result: cellCentersPositionAlongAxes__0', cellCentersPositionAlongAxes__1', cellResolution_', flooredMinimalPositionAlongAxes__0', flooredMinimalPositionAlongAxes__1', numberOfCellsAlongAxes__0', numberOfCellsAlongAxes__1' (none = a partial operation failed: index outside a vector)",
+    "Interval.Interval_f32 (lower_0 lower_1 upper_0 upper_1) result: lower__0', lower__1', upper__0', upper__1'",
+    "GridIndexMapping.GridIndexMapping_range_f2 (cellResolution maximalRange) result: cellCentersPositionAlongAxes__0', cellCentersPositionAlongAxes__1', cellResolution_', flooredMinimalPositionAlongAxes__0', flooredMinimalPositionAlongAxes__1', numberOfCellsAlongAxes__0', numberOfCellsAlongAxes__1' (none = a partial operation failed: index outside a vector)",
+    "GridIndexMapping.computeCellIndexes_f2 (cellResolution_ flooredMinimalPositionAlongAxes__0 flooredMinimalPositionAlongAxes__1 point_0 point_1) result: ret_0, ret_1",
+    "GridIndexMapping.computeCellCenterPosition_f2 (cellCentersPositionAlongAxes__0 cellCentersPositionAlongAxes__1 cellIndexes_0 cellIndexes_1) result: ret_0, ret_1 (none = a partial operation failed: index outside a vector)",
+    "GridIndexMapping.GridIndexMapping_interval_f3.loop1 (cellResolution_ flooredMinimalPositionAlongAxes__0 numberOfCellsAlongAxes__0) carried: cellCentersPositionAlongAxes__0, n",
+    "GridIndexMapping.GridIndexMapping_interval_f3.loop2 (cellResolution_ flooredMinimalPositionAlongAxes__1 numberOfCellsAlongAxes__1) carried: cellCentersPositionAlongAxes__1, n",
+    "GridIndexMapping.GridIndexMapping_interval_f3.loop3 (cellResolution_ flooredMinimalPositionAlongAxes__2 numberOfCellsAlongAxes__2) carried: cellCentersPositionAlongAxes__2, n",
+    "GridIndexMapping.GridIndexMapping_interval_f3 (cellResolution extrimities_lower__0 extrimities_lower__1 extrimities_lower__2 extrimities_upper__0 extrimities_upper__1 extrimities_upper__2) result: cellCentersPositionAlongAxes__0', cellCentersPositionAlongAxes__1', cellCentersPositionAlongAxes__2', cellResolution_', flooredMinimalPositionAlongAxes__0', flooredMinimalPositionAlongAxes__1', flooredMinimalPositionAlongAxes__2', numberOfCellsAlongAxes__0', numberOfCellsAlongAxes__1', numberOfCellsAlongAxes__2' (none = a partial operation failed: index outside a vector)",
+    "Interval.Interval_f32_2 (lower_0 lower_1 lower_2 upper_0 upper_1 upper_2) result: lower__0', lower__1', lower__2', upper__0', upper__1', upper__2'",
+    "GridIndexMapping.GridIndexMapping_range_f3 (cellResolution maximalRange) result: cellCentersPositionAlongAxes__0', cellCentersPositionAlongAxes__1', cellCentersPositionAlongAxes__2', cellResolution_', flooredMinimalPositionAlongAxes__0', flooredMinimalPositionAlongAxes__1', flooredMinimalPositionAlongAxes__2', numberOfCellsAlongAxes__0', numberOfCellsAlongAxes__1', numberOfCellsAlongAxes__2' (none = a partial operation failed: index outside a vector)",
+    "GridIndexMapping.computeCellIndexes_f3 (cellResolution_ flooredMinimalPositionAlongAxes__0 flooredMinimalPositionAlongAxes__1 flooredMinimalPositionAlongAxes__2 point_0 point_1 point_2) result: ret_0, ret_1, ret_2",
+    "GridIndexMapping.computeCellCenterPosition_f3 (cellCentersPositionAlongAxes__0 cellCentersPositionAlongAxes__1 cellCentersPositionAlongAxes__2 cellIndexes_0 cellIndexes_1 cellIndexes_2) result: ret_0, ret_1, ret_2 (none = a partial operation failed: index outside a vector)"] := by rfl
+
 end Romea.Hidden.C13
